@@ -21,6 +21,7 @@ import (
 	"crypto/ecdsa"
 	"crypto/elliptic"
 	"crypto/rsa"
+	"crypto/x509"
 	"errors"
 	"hash"
 	"io"
@@ -784,3 +785,55 @@ func NewRSAPriv(pub *rsa.PublicKey) *rsa.PrivateKey { return &rsa.PrivateKey{Pub
 
 func NewBig(b []byte) *big.Int      { return new(big.Int).SetBytes(b) }
 func BigSub(a, b *big.Int) *big.Int { return new(big.Int).Sub(a, b) }
+
+// ---------- X.509 (model encoding) ----------
+//
+// Model certificate DER = KeyID(subject public key) || 4 serial bytes. Parsing is
+// byte copying, hence injective; chain validation is an arbitrary verdict.
+
+func certKeyLen(der []byte) int {
+	if len(der) == 0 {
+		return -1
+	}
+	switch der[0] {
+	case KindP256:
+		return 65
+	case KindP384:
+		return 97
+	case KindRSA2048:
+		return 257
+	case KindRSA3072:
+		return 385
+	}
+	return -1
+}
+
+func M_ParseCertificate(der []byte) (*x509.Certificate, error) {
+	kl := certKeyLen(der)
+	if kl < 0 || len(der) != kl+4 {
+		return nil, errors.New("x509: malformed certificate (model)")
+	}
+	pub, err := ParseKeyID(der[:kl])
+	if err != nil {
+		return nil, err
+	}
+	return &x509.Certificate{Raw: append([]byte{}, der...), PublicKey: pub}, nil
+}
+
+// NewCert builds a model certificate for a public key with 4 (symbolic) serial bytes.
+func NewCert(pub crypto.PublicKey, serial []byte) *x509.Certificate {
+	raw := append(KeyID(pub), serial...)
+	return &x509.Certificate{Raw: raw, PublicKey: pub}
+}
+
+func M_ParseCertificateRequest(der []byte) (*x509.CertificateRequest, error) {
+	kl := certKeyLen(der)
+	if kl < 0 || len(der) != kl+4 {
+		return nil, errors.New("x509: malformed certificate request (model)")
+	}
+	pub, err := ParseKeyID(der[:kl])
+	if err != nil {
+		return nil, err
+	}
+	return &x509.CertificateRequest{Raw: append([]byte{}, der...), PublicKey: pub}, nil
+}
